@@ -1,16 +1,44 @@
 (* C05 — A non-void function always returns a value from a return statement.
-   Model: Models/Returns.v (port of cfg.go + analyzer.go for the tree with fixes/C05-*.patch applied) and the path
-   semantics run_* over abstract guard outcomes; Models/ReturnsSpec.v is the specification-side decision procedure. *)
+   Model: Models/Returns.v (port of cfg.go + analyzer.go for the tree with the C05 fixes) and the path semantics run_*
+   over abstract guard outcomes; Models/ReturnsSpec.v is the specification-side decision procedure.
+   Proof structure: Proofs/ReturnsBuildP.v + ReturnsBuildCases.v (invariant of the graph builder, by induction over
+   build_stmt/build_block/build_ifs/build_els/build_arms), Proofs/ReturnsDfs.v (completeness of the search),
+   Proofs/ReturnsSound.v (assembly), Proofs/ReturnsSpecP.v (exactness of the specification decider). *)
 From Coq Require Import List Bool Arith.
-From FV Require Import Models.Returns Models.ReturnsSpec Proofs.ReturnsDfs Proofs.ReturnsSpecP.
+From FV Require Import Models.Returns Models.ReturnsSpec Proofs.ReturnsDfs Proofs.ReturnsSpecP
+                       Proofs.ReturnsBuildP Proofs.ReturnsBuildCases Proofs.ReturnsSound.
 
-(* The property at full strength (NOT proved in general, see C05_sound_small_partial and C05_sound_given_cover_partial):
-   an accepted body, in any of the three positions, ends every terminating execution in `return <value>`. *)
-Definition C05_full : Prop :=
+(* The property at full strength, for every body (any nesting of if / else-if / else, match with and without default,
+   while (true or not) / for with break / continue, early and bare returns, nested blocks), every position
+   (function, method, function literal) and every assignment of guard outcomes / iteration counts:
+   an accepted body ends every terminating execution in `return <value>`. *)
+Theorem C05_full :
   forall p body, accepted p body = true -> returns_value_always body.
+Proof. exact accepted_sound. Qed.
+Print Assumptions C05_full.
 
-(* The specification is decidable, and decided exactly by the compositional analysis outs_*: the theorem quantifies
-   over all bodies, nesting depths and guard assignments (any iteration count, "no arm matches"). *)
+(* in the wording of the design: an accepted body has no path that reaches its end without returning *)
+Theorem C05_no_fall_off :
+  forall p body, accepted p body = true -> ~ falls_off body.
+Proof. exact accepted_no_fall. Qed.
+Print Assumptions C05_no_fall_off.
+
+(* the builder invariant's top-level consequence: the graph built by buildBlock/buildIf/buildMatch/buildWhile/buildFor
+   has a return-free path entry ->* exit for every run that falls off the end of the body *)
+Theorem C05_graph_covers_runs :
+  forall body, run_block body ONormal -> path (build_function body) ENTRY EXIT.
+Proof. exact graph_covers_falling_runs. Qed.
+Print Assumptions C05_graph_covers_runs.
+
+(* AllPathsReturn's search is complete on every graph: it answers true only if no path entry ->* exit avoids the
+   blocks whose Returns flag is set. *)
+Theorem C05_search_complete :
+  forall t, all_paths_return t = true -> ~ path t ENTRY EXIT.
+Proof. exact all_paths_return_no_path. Qed.
+Print Assumptions C05_search_complete.
+
+(* The specification is decidable, and decided exactly by the compositional analysis outs_* (used as the Coq-side
+   oracle of the correspondence check). *)
 Theorem C05_spec_decided :
   forall body, spec_ok body = true <-> returns_value_always body.
 Proof. exact spec_ok_iff. Qed.
@@ -21,27 +49,11 @@ Theorem C05_falls_off_decided :
 Proof. exact falls_off_iff. Qed.
 Print Assumptions C05_falls_off_decided.
 
-(* AllPathsReturn's search is complete on every graph: it answers true only if no path entry ->* exit avoids the
-   blocks whose Returns flag is set (unbounded: any graph, any fuel outcome). *)
-Theorem C05_search_complete :
-  forall t, all_paths_return t = true -> ~ path t ENTRY EXIT.
-Proof. exact all_paths_return_no_path. Qed.
-Print Assumptions C05_search_complete.
-
-(* Soundness of acceptance, reduced to the one remaining obligation about buildBlock/buildIf/...: the built graph
-   contains a path for every falling run. *)
-Theorem C05_sound_given_cover_partial :
-  forall body p, graph_covers_runs body -> accepted p body = true -> ~ falls_off body.
-Proof. exact accepted_no_fall_given_cover. Qed.
-Print Assumptions C05_sound_given_cover_partial.
-
-(* C05_full for every body of the exhaustive family In_small (76 650 bodies: all nesting-depth-1 statements over
-   {simple, return v, return, break, continue} in blocks of length <= 2, and each of them under one more
-   while(true)/while/for/if/if-else/match/match-default level), in the three positions. *)
-Theorem C05_sound_small_partial :
-  forall b p, In_small b -> accepted p b = true -> returns_value_always b.
-Proof. exact small_bodies_sound. Qed.
-Print Assumptions C05_sound_small_partial.
+(* the ported analysis never accepts a body the specification decider rejects *)
+Theorem C05_accepted_implies_spec_ok :
+  forall p body, accepted p body = true -> spec_ok body = true.
+Proof. exact accepted_spec_ok. Qed.
+Print Assumptions C05_accepted_implies_spec_ok.
 
 (* non-vacuity: a body with early return, while(true)+break, match without and with default is accepted in all
    three positions and satisfies the specification *)
@@ -51,7 +63,7 @@ Theorem C05_nonvacuous :
 Proof. exact nonvacuous_accept. Qed.
 Print Assumptions C05_nonvacuous.
 
-(* the three defects repaired by fixes/C05-*.patch: the bodies violate the specification and are now rejected *)
+(* the three repaired defects: the bodies violate the specification and are rejected *)
 Theorem C05_repaired_defects_rejected :
   accepted PFunc ex_match_nodefault = false /\ falls_off ex_match_nodefault /\
   accepted PFuncLit ex_lit_missing = false /\ falls_off ex_lit_missing /\
